@@ -238,7 +238,7 @@ class IfWriteHandler(AbstractWriteHandler):
 
         exits = v.out_edges()
 
-        self.decompiler.source_map_add_opcode(op.offset)
+        self.decompiler.source_map_add_opcode(op.offset, on_current_line=not include_newline_in_header)
         opt_space = " " if not include_newline_in_header else ""
         not_str = "" if not m.is_not else " not"
         self.decompiler.write_stmnt(
